@@ -48,9 +48,12 @@ def enc_bool(v):
 
 
 def ext(oidname, critical, value_der):
+    """critical: False / True, or an int 0..255 = the value octet of the BOOLEAN written as it is (BER-style TRUE other than FF, explicit 00)"""
     items = [oid(oidname)]
-    if critical:
+    if critical is True:
         items.append(enc_bool(True))
+    elif critical is not False and critical is not None and not isinstance(critical, bool):
+        items.append(D.enc_tlv(0x01, bytes([critical])))
     items.append(D.enc_octets(value_der))
     return D.enc_seq(*items)
 
